@@ -85,7 +85,7 @@ Definition rba_ok (c : grammar * N) : bool :=
 From Pegen Require Import Proofs.ExecStrip.
 Definition fp_ok (c : grammar * N) : bool :=
   match run_gen (fst c) (snd c) with
-  | inl m => reads_back_with_actions (strip_rules (has_invalid_alt invalid_tbl iter_fields_tbl) (rules (fst c))) (strip_module m) && no_left_rec m
+  | inl m => reads_back_with_actions (strip_rules (has_invalid_alt invalid_tbl iter_fields_tbl) (rules (fst c))) (first_pass_module m) && no_left_rec m
   | inr _ => false
   end.
 From Pegen Require Import Proofs.ExecUnguard.
@@ -104,6 +104,7 @@ RBF_SEEDS = [
     "start: a NEWLINE\na: invalid_a | NAME\ninvalid_a: NUMBER { foo() }\n",
     "start: stmt* NEWLINE\nstmt: invalid_stmt | NAME '=' NUMBER | NAME\ninvalid_stmt: a=NAME '=' b=NAME { foo(a, b) }\n",
     "start: a=NAME b=[invalid_b | NUMBER] NEWLINE { foo(a, b) }\ninvalid_b: '+' { foo() }\n",
+    "start: a_without_invalid NEWLINE | b NEWLINE\na_without_invalid: x 'q'\nb: x 'w'\nx: invalid_x | NAME\ninvalid_x: n=NUMBER { foo(n) }\n",
 ]
 # shapes with explicit actions the action-aware end-to-end theorem must keep covering
 RBA_SEEDS = [
